@@ -24,11 +24,14 @@ import (
 	"errors"
 	"fmt"
 	"os"
+	"os/exec"
 	"path/filepath"
 	"runtime"
 	"runtime/debug"
 	"sort"
+	"strconv"
 	"strings"
+	"sync"
 	"testing"
 	"testing/synctest"
 	"time"
@@ -579,6 +582,89 @@ func scSig(err error) string {
 	return msg
 }
 
+type scViolation struct {
+	Sig    string `json:"sig"`
+	What   string `json:"what"`
+	Replay any    `json:"replay"`
+}
+
+type scResult struct {
+	Name       string        `json:"name"`
+	Completed  int           `json:"completed"`
+	Executions int64         `json:"executions"`
+	Points     int64         `json:"points"`
+	Outcomes   int           `json:"outcomes"`
+	SeqOrders  int           `json:"seq_orders"`
+	Exhaustive bool          `json:"exhaustive"`
+	WallS      float64       `json:"wall_s"`
+	Violations []scViolation `json:"violations"`
+	Infra      []string      `json:"infra"`
+}
+
+// scExplore runs the whole exploration of one scenario (sequential reference, then every
+// interleaving for each preemption bound) in this process.
+func scExplore(t *testing.T, tmp string, sc scScenario, bounds []int, deadline time.Time) scResult {
+	t0 := time.Now()
+	res := scResult{Name: sc.Name, Completed: -1, Exhaustive: true}
+	seen := map[string]bool{}
+	viol := func(sig, what string, replay any) {
+		if !seen[sig] {
+			seen[sig] = true
+			res.Violations = append(res.Violations, scViolation{sig, what, replay})
+		}
+	}
+	seqs, serr := scSeqOutcomes(t, tmp, sc)
+	if serr != nil {
+		sig := scSig(serr)
+		if strings.HasPrefix(sig, "harness") {
+			res.Infra = append(res.Infra, fmt.Sprintf("%v scenario=%s (atomic)", serr, sc.Name))
+		} else {
+			viol(sig, serr.Error(), map[string]any{"scenario": sc, "atomic": true})
+		}
+		res.Exhaustive = false
+		return res
+	}
+	res.SeqOrders = len(seqs)
+	outcomes := map[string]int64{}
+	for _, b := range bounds {
+		st := vx.DFS(vx.DFSOpts{Bound: b, Deadline: deadline}, func(e *vx.Exec) (string, error) {
+			r := scRun(t, tmp, sc, e, false, false)
+			var rets []string
+			for _, rec := range r.recs {
+				rets = append(rets, rec.key+"="+rec.ret)
+			}
+			sort.Strings(rets)
+			outcome := strings.Join(rets, ",") + "|" + r.final
+			if r.err != nil {
+				return "ERR:" + scSig(r.err), r.err
+			}
+			if !scLinearisable(sc, r, seqs) {
+				return "NONLIN", fmt.Errorf("C08/final-state-not-sequential/%s: results %s: final content and results of the mutating operations match no sequential order (%d reference orders)", sc.Name, outcome, len(seqs))
+			}
+			return outcome, nil
+		}, func(e *vx.Exec, err error) {
+			sig := scSig(err)
+			if strings.HasPrefix(sig, "harness") || strings.HasPrefix(sig, "DIVERGENCE") {
+				res.Infra = append(res.Infra, fmt.Sprintf("%v scenario=%s choices=%v", err, sc.Name, e.Choices))
+				return
+			}
+			viol(sig, err.Error(), map[string]any{"scenario": sc, "choices": e.Choices, "trace": e.Trace()})
+		})
+		res.Executions, res.Points = st.Executions, st.ChoicePoints
+		for k, v := range st.Outcomes {
+			outcomes[k] = v
+		}
+		if !st.Complete {
+			res.Exhaustive = false
+			break
+		}
+		res.Completed = b
+	}
+	res.Outcomes = len(outcomes)
+	res.WallS = time.Since(t0).Seconds()
+	return res
+}
+
 func TestVerifC08(t *testing.T) {
 	logging.SetAllLoggers(logging.LevelFatal)
 	rep := vx.NewReport("C08", "model_checking")
@@ -608,69 +694,92 @@ func TestVerifC08(t *testing.T) {
 	if rep.Tier == "thorough" {
 		bounds = []int{0, 1, 2, 3}
 	}
-	exhaustive := true
 	scs := scScenarios(rep.Tier)
-	for si, sc := range scs {
-		sc := sc
-		seqs, serr := scSeqOutcomes(t, tmp, sc)
-		if serr != nil {
-			sig := scSig(serr)
-			if strings.HasPrefix(sig, "harness") {
-				rep.Infra(fmt.Sprintf("%v scenario=%s (atomic)", serr, sc.Name))
-			} else {
-				rep.Violation(sig, serr.Error(), map[string]any{"scenario": sc, "atomic": true})
+
+	// shard process: one scenario, result to a file, nothing else
+	if name := os.Getenv("VERIF_C08_SCENARIO"); name != "" {
+		for _, sc := range scs {
+			if sc.Name == name {
+				dl, _ := strconv.ParseInt(os.Getenv("VERIF_C08_DEADLINE_MS"), 10, 64)
+				res := scExplore(t, tmp, sc, bounds, time.UnixMilli(dl))
+				b, _ := json.Marshal(res)
+				if err := os.WriteFile(os.Getenv("VERIF_C08_OUT"), b, 0o644); err != nil {
+					t.Fatal(err)
+				}
 			}
+		}
+		return
+	}
+
+	// parent: one process per scenario (each with a single P and the whole budget), up to 16 at once
+	exhaustive := true
+	results := make([]*scResult, len(scs))
+	errs := make([]string, len(scs))
+	sem := make(chan struct{}, vx.Workers())
+	var wg sync.WaitGroup
+	for i, sc := range scs {
+		wg.Add(1)
+		go func(i int, sc scScenario) {
+			defer wg.Done()
+			sem <- struct{}{}
+			defer func() { <-sem }()
+			out := filepath.Join(tmp, fmt.Sprintf("c08-shard-%d.json", i))
+			cmd := exec.Command(os.Args[0], "-test.run=^TestVerifC08$", "-test.count=1", "-test.timeout=0")
+			cmd.Env = append(os.Environ(), "VERIF_C08_SCENARIO="+sc.Name, "VERIF_C08_OUT="+out,
+				fmt.Sprintf("VERIF_C08_DEADLINE_MS=%d", deadline.UnixMilli()), "VERIF_EVIDENCE=", "GOMAXPROCS=1")
+			ob, err := cmd.CombinedOutput()
+			if err != nil {
+				tail := string(ob)
+				if len(tail) > 1500 {
+					tail = tail[len(tail)-1500:]
+				}
+				// a shard that printed a VIOLATION itself (watchdog) is passed through
+				if strings.Contains(string(ob), "VIOLATION property=C08") {
+					fmt.Print(string(ob))
+				}
+				errs[i] = fmt.Sprintf("shard %s: %v: %s", sc.Name, err, tail)
+				return
+			}
+			b, err := os.ReadFile(out)
+			if err != nil {
+				errs[i] = fmt.Sprintf("shard %s: %v", sc.Name, err)
+				return
+			}
+			var r scResult
+			if err := json.Unmarshal(b, &r); err != nil {
+				errs[i] = fmt.Sprintf("shard %s: %v", sc.Name, err)
+				return
+			}
+			results[i] = &r
+		}(i, sc)
+	}
+	wg.Wait()
+	for i, sc := range scs {
+		if errs[i] != "" {
+			rep.Infra(errs[i])
+			exhaustive = false
 			continue
 		}
-		completed := -1
-		var total, points int64
-		outcomes := map[string]int64{}
-		// per-scenario share of the remaining budget
-		scDeadline := time.Now().Add(time.Until(deadline) / time.Duration(len(scs)-si))
-		for _, b := range bounds {
-			st := vx.DFS(vx.DFSOpts{Bound: b, Deadline: scDeadline}, func(e *vx.Exec) (string, error) {
-				r := scRun(t, tmp, sc, e, false, false)
-				var rets []string
-				for _, rec := range r.recs {
-					rets = append(rets, rec.key+"="+rec.ret)
-				}
-				sort.Strings(rets)
-				outcome := strings.Join(rets, ",") + "|" + r.final
-				if r.err != nil {
-					return "ERR:" + scSig(r.err), r.err
-				}
-				if !scLinearisable(sc, r, seqs) {
-					return "NONLIN", fmt.Errorf("C08/final-state-not-sequential/%s: results %s: final content and results of the mutating operations match no sequential order (%d reference orders)", sc.Name, outcome, len(seqs))
-				}
-				return outcome, nil
-			}, func(e *vx.Exec, err error) {
-				sig := scSig(err)
-				if strings.HasPrefix(sig, "harness") || strings.HasPrefix(sig, "DIVERGENCE") {
-					rep.Infra(fmt.Sprintf("%v scenario=%s choices=%v", err, sc.Name, e.Choices))
-					return
-				}
-				rep.Violation(sig, err.Error(), map[string]any{"scenario": sc, "choices": e.Choices, "trace": e.Trace()})
-			})
-			total = st.Executions
-			points = st.ChoicePoints
-			for k, v := range st.Outcomes {
-				outcomes[k] = v
-			}
-			if !st.Complete {
-				exhaustive = false
-				break
-			}
-			completed = b
+		r := results[i]
+		for _, inf := range r.Infra {
+			rep.Infra(inf)
+		}
+		for _, v := range r.Violations {
+			rep.Violation(v.Sig, v.What, v.Replay)
+		}
+		if !r.Exhaustive {
+			exhaustive = false
 		}
 		// stateless search: states = distinct terminal outcomes, transitions = scheduling decisions taken
-		rep.Count(total, int64(len(outcomes)), int64(len(outcomes)), points)
+		rep.Count(r.Executions, int64(r.Outcomes), int64(r.Outcomes), r.Points)
 		rep.Set("scenario_"+sc.Name, map[string]any{"threads": sc.Threads, "init": sc.Init, "cache": sc.CacheSize, "extra_cache": sc.Extra,
-			"preemption_bound_completed": completed, "executions_at_last_bound": total, "distinct_outcomes": len(outcomes),
-			"sequential_reference_orders": len(seqs)})
+			"preemption_bound_completed": r.Completed, "executions_at_last_bound": r.Executions, "distinct_outcomes": r.Outcomes,
+			"sequential_reference_orders": r.SeqOrders, "wall_s": r.WallS})
 		if len(rep.Samples) < 5 {
 			rep.AddSample(map[string]any{"scenario": sc})
 		}
 	}
+	rep.Set("shard_processes", len(scs))
 	rep.SetExhaustive(exhaustive)
 	if rep.Finish() > 0 {
 		t.Fail()
